@@ -23,6 +23,10 @@ CLAIMED = {
    text='Coq theorems for every number of modes, functions per mode and snapshots: entry (k_1..k_p, j) of basis_decomposition (= coordinate_major / function_major with their tables) is the product of the selected basis functions at snapshot j; single_core is the corresponding core; gram equals the sum over all multi-indices of products. Tied to /repo by exact differential execution on integer data; float side check with explicit loops; hocur side check only.',
    note='PARTIAL: hocur (cross approximation) is outside the proof. Trusted: Coq kernel, harness (it computes the basis-evaluation tables from the real Function objects), rounding not modelled.',
    technique='Coq proof (diagonal-in-snapshot chain collapse) + exact model-vs-code correspondence', design='6 C15'),
+ 'C12': dict(
+   text='Coq theorems (every order >= 2, cell sizes, bond ranks, open/cyclic): the SLIM block pattern denotes sum_i S_i + sum_i L_i.M_{i+1} + cyclic term; elementary reaction matrices have zero column sums; Ulam 2-D entries are transition counts. slim_mme (incl. super-core construction and SVD split, via tape) and ulam_2d are tied to /repo by exact differential execution; side check against a state-enumeration generator and histograms (2-D and 3-D).',
+   note='Trusted: Coq kernel, harness, SVD value conjunct (L.M = super-core), numpy.unique as oracle; ulam_3d and off-diagonal non-negativity are side-check only; rounding not modelled.',
+   technique='Coq proof (column-vector invariant over the block pattern) + oracle-tape correspondence', design='6 C12'),
 }
 NOT_YET = {}
 ALL = ['C%02d' % i for i in range(1, 21)]
